@@ -758,4 +758,276 @@ theorem spinPhase_result (sc : Scen) (w : W) (hq : w.calls = insAll (preCalls w.
               simp
             simp only [hallq, hxr]
 
+/-! ## bookkeeping invariants: every scheduled call is executed or left over, exactly once -/
+
+def qlbls (w : W) : List Lbl := w.calls.map (·.act.lbl)
+def elbls (w : W) : List Lbl := w.events.map (·.2)
+
+theorem lbl_of_isTimeout {q : QAct Act} (h : q.isTimeout = true) : q.lbl = .timeout := by
+  cases q <;> simp_all [QAct.isTimeout, QAct.lbl]
+
+theorem lbl_of_not_isTimeout {q : QAct Act} (h : q.isTimeout = false) : q.lbl ≠ .timeout := by
+  cases q <;> simp_all [QAct.isTimeout, QAct.lbl]
+
+theorem count_user_filter (l : Nat) (q : List (DCall (QAct Act))) :
+    ((q.filter fun c => !c.act.isTimeout).map (·.act.lbl)).count (.user l) = (q.map (·.act.lbl)).count (.user l) := by
+  induction q with
+  | nil => rfl
+  | cons c rest ih =>
+    cases hc : c.act.isTimeout
+    · simp only [List.filter_cons, hc, Bool.not_false, if_true, List.map_cons, List.count_cons, ih]
+    · have := lbl_of_isTimeout hc
+      simp only [List.filter_cons, hc, Bool.not_true, Bool.false_eq_true, if_false, List.map_cons, List.count_cons, ih, this]
+      simp
+
+theorem count_timeout_filter (q : List (DCall (QAct Act))) :
+    ((q.filter fun c => !c.act.isTimeout).map (·.act.lbl)).count .timeout = 0 := by
+  induction q with
+  | nil => rfl
+  | cons c rest ih =>
+    cases hc : c.act.isTimeout
+    · have := lbl_of_not_isTimeout hc
+      simp only [List.filter_cons, hc, Bool.not_false, if_true, List.map_cons, List.count_cons, ih]
+      simp [this]
+    · simp only [List.filter_cons, hc, Bool.not_true, Bool.false_eq_true, if_false, ih]
+
+/-- the user-visible effect of `deliver`/`stopReactor` on the queue: at most the timeout call disappears -/
+theorem deliver_count_user (r : Res) (w : W) (l : Nat) :
+    (qlbls (deliver r w)).count (.user l) = (qlbls w).count (.user l) := by
+  simp only [qlbls, deliver_calls]
+  split
+  · exact count_user_filter l w.calls
+  · rfl
+
+theorem deliver_mem (r : Res) (w : W) : ∀ c ∈ (deliver r w).calls, c ∈ w.calls := by
+  intro c hc
+  rw [deliver_calls] at hc
+  split at hc
+  · exact (List.mem_filter.mp hc).1
+  · exact hc
+
+def isReenter : Act → Bool
+  | .reenter _ => true
+  | _ => false
+
+/-- how a scenario action changes what the bookkeeping looks at -/
+structure ExecFrame (l : Nat) (a : Act) (w w' : W) : Prop where
+  events : w'.events = w.events
+  cnt : ∀ l', (qlbls w').count (.user l') = (qlbls w).count (.user l')
+  mem : ∀ c ∈ w'.calls, c ∈ w.calls
+  sels : w'.sels = if a = .addSel then w.sels ++ [l] else w.sels
+  reent : w'.u.reentries = if isReenter a then w.u.reentries ++ [.reentry] else w.u.reentries
+  sigs : w'.sigs.length = w.sigs.length
+  now : w'.now = w.now
+  t0 : w'.t0 = w.t0
+  junk : w'.sp.junk = w.sp.junk
+  running : w'.running = w.running
+  stopPatched : w'.stopPatched = w.stopPatched
+
+theorem fireD_frame (l : Nat) (a : Act) (r : Res) (w : W) (ha : a ≠ .addSel) (hre : isReenter a = false) :
+    ExecFrame l a w (fireD r w) := by
+  have hsel : (if a = Act.addSel then w.sels ++ [l] else w.sels) = w.sels := by simp [ha]
+  have hre' : (if isReenter a then w.u.reentries ++ [Res.reentry] else w.u.reentries) = w.u.reentries := by simp [hre]
+  cases hd : w.u.dres with
+  | some x =>
+    rw [fireD_of_fired (by simp [hd])]
+    exact ⟨rfl, fun _ => rfl, fun _ h => h, hsel.symm, hre'.symm, rfl, rfl, rfl, rfl, rfl, rfl⟩
+  | none =>
+    cases hat : w.u.attached with
+    | true =>
+      rw [fireD_attached _ hd hat]
+      exact ⟨by simp, fun l' => by rw [deliver_count_user]; rfl, fun c hc => deliver_mem r { w with u := { w.u with dres := some r } } c hc, by simp [hsel],
+        by simp [hre'], by simp, by simp, by simp, by simp, by simp, by simp⟩
+    | false =>
+      rw [fireD_unattached _ hd hat]
+      exact ⟨rfl, fun _ => rfl, fun _ h => h, hsel.symm, hre'.symm, rfl, rfl, rfl, rfl, rfl, rfl⟩
+
+theorem exec_frame (l : Nat) (a : Act) (w : W) : ExecFrame l a w (exec l a w) := by
+  cases a with
+  | fire v => exact fireD_frame l _ _ w (by simp) rfl
+  | fail e => exact fireD_frame l _ _ w (by simp) rfl
+  | stop => exact ⟨rfl, fun _ => rfl, fun _ h => h, by simp [exec], rfl, rfl, rfl, rfl, rfl, rfl, rfl⟩
+  | noop => exact ⟨rfl, fun _ => rfl, fun _ h => h, by simp [exec], rfl, rfl, rfl, rfl, rfl, rfl, rfl⟩
+  | addSel => exact ⟨rfl, fun _ => rfl, fun _ h => h, by simp [exec], rfl, rfl, rfl, rfl, rfl, rfl, rfl⟩
+  | setSig s h => exact ⟨rfl, fun _ => rfl, fun _ h => h, by simp [exec], rfl, by simp [exec], rfl, rfl, rfl, rfl, rfl⟩
+  | reenter f => exact ⟨rfl, fun _ => rfl, fun _ h => h, by simp [exec], rfl, rfl, rfl, rfl, rfl, rfl, rfl⟩
+
+/-- bookkeeping invariant: `k` labels have been issued so far -/
+structure Book (sc : Scen) (k : Nat) (w : W) : Prop where
+  cnt : ∀ l, (qlbls w).count (.user l) + (elbls w).count (.user l) = if l < k then 1 else 0
+  lab : ∀ c ∈ w.calls, ∀ l a, c.act = .user l a → actOf sc l = some a ∧ l ∈ delayedLabels sc
+  sels : w.sels = w.events.filterMap (selEv sc)
+  reent : w.u.reentries.length = (w.events.filter (isReenterEv sc)).length
+  reent_all : ∀ r ∈ w.u.reentries, r = .reentry
+
+theorem selEv_user (sc : Scen) (t l : Nat) (a : Act) (h : actOf sc l = some a) :
+    selEv sc (t, .user l) = if a = .addSel then some l else none := by
+  simp only [selEv, h]
+  cases a <;> simp
+
+theorem isReenterEv_user (sc : Scen) (t l : Nat) (a : Act) (h : actOf sc l = some a) :
+    isReenterEv sc (t, .user l) = isReenter a := by
+  simp only [isReenterEv, h]
+  cases a <;> rfl
+
+/-- logging the event of label `l` and running its action: `l` moves to "executed" -/
+theorem book_run (sc : Scen) (k : Nat) (w : W) (l : Nat) (a : Act) (hact : actOf sc l = some a)
+    (hlab : ∀ c ∈ w.calls, ∀ l a, c.act = .user l a → actOf sc l = some a ∧ l ∈ delayedLabels sc)
+    (hsels : w.sels = w.events.filterMap (selEv sc))
+    (hre : w.u.reentries.length = (w.events.filter (isReenterEv sc)).length)
+    (hra : ∀ r ∈ w.u.reentries, r = .reentry)
+    (hcnt : ∀ l', (qlbls w).count (.user l') + (elbls w).count (.user l') + (if l' = l then 1 else 0) = if l' < k then 1 else 0) :
+    Book sc k (exec l a (logEvent (.user l) w)) := by
+  have hf := exec_frame l a (logEvent (.user l) w)
+  refine ⟨?_, ?_, ?_, ?_, ?_⟩
+  · intro l'
+    rw [hf.cnt l', ← hcnt l']
+    simp only [elbls, hf.events, logEvent_events, List.map_append, List.count_append, qlbls, logEvent_calls]
+    by_cases h : l' = l
+    · subst h; simp; omega
+    · have : Lbl.user l ≠ Lbl.user l' := by intro h'; injection h' with h'; exact h h'.symm
+      simp [h, List.count_cons, this]
+  · intro c hc
+    exact hlab c (hf.mem c hc)
+  · rw [hf.sels, hf.events]
+    simp only [logEvent_sels, logEvent_events, List.filterMap_append, List.filterMap_cons, List.filterMap_nil,
+      selEv_user sc _ l a hact, hsels]
+    split <;> simp
+  · rw [hf.reent, hf.events]
+    simp only [logEvent_u, logEvent_events, List.filter_append, List.length_append, List.filter_cons,
+      isReenterEv_user sc _ l a hact, List.filter_nil]
+    cases isReenter a <;> simp [hre]
+  · rw [hf.reent]
+    simp only [logEvent_u]
+    split
+    · intro r hr
+      rcases List.mem_append.mp hr with h | h
+      · exact hra r h
+      · simpa using h
+    · exact hra
+
+/-- an action either leaves queue, spinner and clock alone (it may request a crash), or it is a `deliver` of the
+Deferred's own result on such a state -/
+theorem exec_cases (l : Nat) (a : Act) (w : W) :
+    ((exec l a w).calls = w.calls ∧ (exec l a w).sp = w.sp ∧ (w.crashed = true → (exec l a w).crashed = true)
+      ∧ (exec l a w).now = w.now ∧ (exec l a w).events = w.events ∧ ((exec l a w).crashed = w.crashed ∨ a = .stop)) ∨
+    (∃ r w1, isOwnResult r = true ∧ exec l a w = deliver r w1 ∧ w1.calls = w.calls ∧ w1.sp = w.sp
+      ∧ w1.crashed = w.crashed ∧ w1.now = w.now ∧ w1.events = w.events) := by
+  have hfire : ∀ r, isOwnResult r = true →
+      ((fireD r w).calls = w.calls ∧ (fireD r w).sp = w.sp ∧ (w.crashed = true → (fireD r w).crashed = true)
+        ∧ (fireD r w).now = w.now ∧ (fireD r w).events = w.events ∧ (fireD r w).crashed = w.crashed) ∨
+      (∃ r' w1, isOwnResult r' = true ∧ fireD r w = deliver r' w1 ∧ w1.calls = w.calls ∧ w1.sp = w.sp
+        ∧ w1.crashed = w.crashed ∧ w1.now = w.now ∧ w1.events = w.events) := by
+    intro r hr
+    cases hd : w.u.dres with
+    | some x => rw [fireD_of_fired (by simp [hd])]; exact Or.inl ⟨rfl, rfl, id, rfl, rfl, rfl⟩
+    | none =>
+      cases hat : w.u.attached with
+      | true => rw [fireD_attached _ hd hat]; exact Or.inr ⟨r, _, hr, rfl, rfl, rfl, rfl, rfl, rfl⟩
+      | false => rw [fireD_unattached _ hd hat]; exact Or.inl ⟨rfl, rfl, id, rfl, rfl, rfl⟩
+  cases a with
+  | fire v =>
+    rcases hfire (.value v) rfl with ⟨a, b, c, d, e, f⟩ | h
+    · exact Or.inl ⟨a, b, c, d, e, Or.inl f⟩
+    · exact Or.inr h
+  | fail e =>
+    rcases hfire (.raised e) rfl with ⟨a, b, c, d, e, f⟩ | h
+    · exact Or.inl ⟨a, b, c, d, e, Or.inl f⟩
+    · exact Or.inr h
+  | stop => exact Or.inl ⟨rfl, rfl, fun _ => rfl, rfl, rfl, Or.inr rfl⟩
+  | noop => exact Or.inl ⟨rfl, rfl, id, rfl, rfl, Or.inl rfl⟩
+  | addSel => exact Or.inl ⟨rfl, rfl, id, rfl, rfl, Or.inl rfl⟩
+  | setSig s h => exact Or.inl ⟨rfl, rfl, id, rfl, rfl, Or.inl rfl⟩
+  | reenter f => exact Or.inl ⟨rfl, rfl, id, rfl, rfl, Or.inl rfl⟩
+
+/-! ### Book through the phases -/
+
+theorem book_of_eq {sc : Scen} {k : Nat} {w w' : W} (h : Book sc k w) (hc : w'.calls = w.calls)
+    (he : w'.events = w.events) (hs : w'.sels = w.sels) (hr : w'.u.reentries = w.u.reentries) : Book sc k w' :=
+  ⟨by simpa [qlbls, elbls, hc, he] using h.cnt, by rw [hc]; exact h.lab, by rw [hs, he]; exact h.sels,
+   by rw [hr, he]; exact h.reent, by rw [hr]; exact h.reent_all⟩
+
+theorem book_deliver {sc : Scen} {k : Nat} {w : W} (r : Res) (h : Book sc k w) : Book sc k (deliver r w) :=
+  ⟨fun l => by rw [deliver_count_user]; simpa [elbls] using h.cnt l,
+   fun c hc => h.lab c (deliver_mem r w c hc), by simpa using h.sels, by simpa using h.reent, by simpa using h.reent_all⟩
+
+theorem count_lbl_cons (x : Lbl) (c : DCall (QAct Act)) (rest : List (DCall (QAct Act))) :
+    ((c :: rest).map (·.act.lbl)).count x = (rest.map (·.act.lbl)).count x + (if c.act.lbl = x then 1 else 0) := by
+  simp [List.count_cons]
+
+theorem book_schedule_user {sc : Scen} {k : Nat} {w : W} (t : Nat) (a : Act) (h : Book sc k w)
+    (hact : actOf sc k = some a) (hmem : k ∈ delayedLabels sc) : Book sc (k + 1) (schedule t (.user k a) w) := by
+  refine ⟨?_, ?_, by simpa using h.sels, by simpa using h.reent, by simpa using h.reent_all⟩
+  · intro l
+    have := h.cnt l
+    simp only [qlbls, schedule_calls, elbls, schedule_events] at this ⊢
+    rw [insert_count_map, count_lbl_cons]
+    have hl : (⟨t, QAct.user k a⟩ : DCall (QAct Act)).act.lbl = Lbl.user k := rfl
+    rw [hl]
+    by_cases hlk : l = k
+    · subst hlk; simp at this ⊢; omega
+    · have hne : ¬ (Lbl.user k = Lbl.user l) := by intro h'; injection h' with h'; exact hlk h'.symm
+      simp only [hne, if_false, Nat.add_zero]
+      rw [this]
+      split <;> split <;> omega
+  · intro c hc l a' hca
+    rcases mem_insert.mp hc with rfl | hc
+    · simp only [QAct.user.injEq] at hca
+      obtain ⟨rfl, rfl⟩ := hca
+      exact ⟨hact, hmem⟩
+    · exact h.lab c hc l a' hca
+
+theorem book_now {sc : Scen} {k : Nat} {w : W} (a : Act) (h : Book sc k w) (hact : actOf sc k = some a) :
+    Book sc (k + 1) (exec k a (logEvent (.user k) w)) := by
+  apply book_run sc (k + 1) w k a hact h.lab h.sels h.reent h.reent_all
+  intro l
+  have := h.cnt l
+  by_cases hl : l = k
+  · subst hl; simp at this ⊢; omega
+  · simp only [hl, if_false, Nat.add_zero]
+    rw [this]
+    split <;> split <;> omega
+
+theorem book_pop {sc : Scen} {k : Nat} {w : W} (h : Book sc k w) (c : DCall (QAct Act)) (rest : List (DCall (QAct Act)))
+    (hc : w.calls = c :: rest) : Book sc k (execCall exec c { w with calls := rest }) := by
+  rcases c with ⟨t, q⟩
+  cases q with
+  | timeout =>
+    simp only [execCall]
+    have hl : (⟨t, QAct.timeout⟩ : DCall (QAct Act)).act.lbl = Lbl.timeout := rfl
+    refine ⟨?_, ?_, ?_, ?_, by simpa using h.reent_all⟩
+    · intro l
+      have := h.cnt l
+      simp only [qlbls, hc, elbls] at this
+      rw [count_lbl_cons, hl] at this
+      simpa [qlbls, elbls] using this
+    · intro c' hc'
+      exact h.lab c' (by rw [hc]; exact List.mem_cons_of_mem _ (by simpa using hc'))
+    · simp [h.sels, selEv]
+    · simp [h.reent, isReenterEv, List.filter_cons]
+  | user l a =>
+    simp only [execCall]
+    have hl : (⟨t, QAct.user l a⟩ : DCall (QAct Act)).act.lbl = Lbl.user l := rfl
+    obtain ⟨hact, _⟩ := h.lab ⟨t, .user l a⟩ (by rw [hc]; exact List.mem_cons_self) l a rfl
+    apply book_run sc k _ l a hact
+    · intro c' hc'
+      exact h.lab c' (by rw [hc]; exact List.mem_cons_of_mem _ hc')
+    · exact h.sels
+    · exact h.reent
+    · exact h.reent_all
+    · intro l'
+      have := h.cnt l'
+      simp only [qlbls, hc, elbls] at this
+      rw [count_lbl_cons, hl] at this
+      simp only [qlbls, elbls]
+      rw [← this]
+      by_cases hll : l' = l
+      · subst hll; simp; omega
+      · have hne : ¬ (Lbl.user l = Lbl.user l') := by intro h'; injection h' with h'; exact hll h'.symm
+        simp [hll, hne]
+
+theorem book_spin {sc : Scen} {k : Nat} (n : Nat) (w : W) (h : Book sc k w) : Book sc k (spin exec fuelD n w) :=
+  spin_inv exec fuelD (Book sc k) (fun w c rest h hc _ => book_pop h c rest hc)
+    (fun _ _ _ h _ _ => book_of_eq h rfl rfl rfl rfl) n w h
+
 end TTV.Props.C15
